@@ -35,18 +35,18 @@ Proof.
     destruct r as [|b r]; [reflexivity|]. imp_unfold.
     unfold is, CR, LF. destruct (N.eqb b 13).
     - destruct r as [|b2 r]; [reflexivity|]. imp_unfold.
-      destruct (N.eqb b2 10); [|reflexivity]. cbn [drop g_parse_reason_v_seen_obs_text].
+      destruct (N.eqb b2 10); [|reflexivity]. cbn [drop g_parse_reason_m1].
       destruct seen; reflexivity.
     - destruct (N.eqb b 10).
-      + cbn [drop g_parse_reason_v_seen_obs_text]. destruct seen; reflexivity.
+      + cbn [drop g_parse_reason_m1]. destruct seen; reflexivity.
       + unfold reason_byte, is, SP. rewrite in_rng_range.
         change (N.leb 128 b) with (128 <=? b).
         destruct (N.eqb b 9 || N.eqb b 32 || in_range 33 126 b || (128 <=? b)) eqn:Hc;
           cbn [negb]; [|reflexivity].
         destruct (128 <=? b) eqn:Ho.
-        * unfold set_g_parse_reason_v_seen_obs_text. rewrite IH. rewrite orb_true_r. reflexivity.
+        * unfold set_g_parse_reason_m1. rewrite IH. rewrite orb_true_r. reflexivity.
         * rewrite IH. rewrite orb_false_r. reflexivity. }
-  imp_unfold. unfold set_g_parse_reason_v_seen_obs_text.
+  imp_unfold. unfold set_g_parse_reason_m1.
   specialize (HL fuel false c). unfold to_out in HL.
   destruct (iloop _ _ _ _ _) as [a l' c'|l'|e l'|f0 l'|x l' c']; try exact HL.
   destruct x; exact HL.
